@@ -30,7 +30,7 @@ RULE = (
 )
 ASSUMPTIONS = ["re-entering a context object that is already active is not generated (excluded by the property)",
                "two distinct context objects A, B besides the process-wide default context"]
-BOUNDS = {"quick": {"depth": 5, "configs": 4}, "thorough": {"depth": 6, "configs": 8}}
+BOUNDS = {"quick": {"depth": 5, "configs": 4}, "thorough": {"depth": 7, "configs": 8}}
 CHUNK = 1
 
 # ------------------------------------------------------------------ compile log (monkey patch, harness process only)
